@@ -29,7 +29,8 @@ def main():
         args = args[2:]
     ids = args or ["C%02d" % i for i in range(1, 21)]
     os.makedirs(LOGS, exist_ok=True)
-    env = dict(os.environ, CARGO_TARGET_DIR=TARGET, CARGO_NET_OFFLINE="true", RUSTFLAGS="-Cinstrument-coverage -Awarnings")
+    env = dict(os.environ, CARGO_TARGET_DIR=TARGET, CARGO_NET_OFFLINE="true", RUSTFLAGS="-Cinstrument-coverage -Awarnings",
+               LLVM_PROFILE_FILE=os.path.join(TARGET, "build-%p.profraw"))  # instrumented build scripts write here, not into their cwd
     p = subprocess.run(["cargo", "+nightly", "build", "--offline", "--quiet"], cwd=os.path.join(VERIF, "harness"), env=env)
     if p.returncode != 0:
         print("coverage build failed")
